@@ -40,6 +40,9 @@ def pool_models():
             'D7': '=ROUND(A1/3,2)+ROUNDUP(A2/3,1)+ROUNDDOWN(A3/7,3)+MAX(A1:A3,7)-MIN(A1:A3)', 'D8': '=DATEDIF(C1,C2,"M")+NETWORKDAYS(C1,C2,C1:C2)+YEAR(EDATE(C1,3))',
             'D9': '=LEFT(B1,2)&MID(B2,1,1)&RIGHT(B3,3)&CONCATENATE(A1,"-",A2)&SEARCH("e",B1)', 'D10': '=AND(A1>0,A2>0,A3>0)=OR(A1>2,A2>2)',
             'D11': '=COUNT(A1:A3,B1:B3,5)+COUNTBLANK(A1:B4)+XMATCH(2,A1:A3,0,-1)', 'D12': '=ADDRESS(2,3)&TEXT(A1,"0")&VALUE("12")&COLUMN(B2)'}
+    # criteria that a lenient date parser completes from today's date, an array formula (an object of its own for the reader)
+    sink['D13'] = '=COUNTIFS(B1:B3,"May")+SUMIF(B1:B3,"9:30",A1:A3)+COUNTIFS(B1:B3,"1/5")+COUNTIFS(C1:C2,">Sat")'
+    sink['D14'] = {'$arr': ['D14:D14', '=SUM(A1:A3)*2']}
     base['sheets'].append({'title': 'K', 'cells': sink})
     w1 = json.loads(json.dumps(base))
     w1['sheets'][0]['cells']['A1'] = 3                   # differs in one constant
@@ -55,7 +58,9 @@ def pool_models():
     for i in range(1, 401):
         deep[f'B{i}'] = f'=B{i + 1}+1' if i < 400 else '=A1'
     w5 = {'sheets': [{'title': 'S', 'cells': deep}, {'title': 'T', 'cells': {'A1': 10, 'B1': '=A1+S!A1', 'B2': 'text'}}]}
-    return [base, w1, w2, w3, w4, w5]
+    # chart sheets between and behind the worksheets (they have titles, no cells)
+    w6 = {'sheets': [base['sheets'][0], {'title': 'Chart1', 'chart': True}, base['sheets'][1], base['sheets'][2], {'title': 'Chart2', 'chart': True}]}
+    return [base, w1, w2, w3, w4, w5, w6]
 
 
 ENTRIES = [None, ['K', 'D', '1'], ['K', 'D', '2'], ['S', 'C', '1'], ['S', 'C', '2'], ['S', 'D', '1'], ['T', 'B', '1'], [0, 2, 0], [1, 1, 0], ['S', 'D', '2'], ['S', 'E', '1'], ['T', 'B', '2']]
@@ -354,6 +359,8 @@ def make_schedule(rnd, counts):
 
 def run_child(job, hashseed):
     envv = dict(os.environ, PYTHONHASHSEED=str(hashseed), VF_TMP_PARENT=env.tmpdir())
+    if job.get('tz'):
+        envv['TZ'] = job['tz']     # another local date (26 hours lie between EAST-14 and WEST12): the text must not depend on it
     p = subprocess.run([sys.executable, '-B', '-m', 'vf.props.c09'], input=json.dumps(job), capture_output=True, text=True,
                        cwd=env.VERIF, env=envv, timeout=900)
     if p.returncode != 0:
@@ -363,8 +370,8 @@ def run_child(job, hashseed):
 
 def matrix_items():
     items = []
-    for wi in range(6):
-        for entry in ENTRIES[:8] if wi < 5 else [None, ['S', 'C', '1'], ['S', 'B', '399'], ['T', 'B', '1']]:
+    for wi in range(7):
+        for entry in ENTRIES[:8] if wi != 5 else [None, ['S', 'C', '1'], ['S', 'B', '399'], ['T', 'B', '1']]:
             for safety in (False, True) if wi == 3 else (False,):
                 items.append([wi, entry, safety])
     return items
@@ -413,7 +420,7 @@ def build_machine(rec):
             super().__init__()
             self.steps = []
 
-        @rule(i=st.integers(0, 5))
+        @rule(i=st.integers(0, 6))
         def set_path(self, i):
             self.steps.append(['path', i])
 
@@ -495,7 +502,8 @@ def run_shard(spec, rec):
         # cold (one item per child) for a few, then one child that runs everything in a shuffled order (history leakage)
         order = list(items)
         rnd.shuffle(order)
-        jobs = [{'kind': 'sequence', 'items': order}] + [{'kind': 'sequence', 'items': [it]} for it in order[:3]]
+        jobs = [{'kind': 'sequence', 'items': order}] + [{'kind': 'sequence', 'items': [it]} for it in order[:3]] + \
+               [{'kind': 'sequence', 'items': order[:10] + [it for it in items if it[1] in (None, ['K', 'D', '1'])][:6], 'tz': ['EAST-14', 'WEST12'][spec.get('order', 0) % 2]}]
     else:
         order = list(items)
         rnd.shuffle(order)
